@@ -18,6 +18,10 @@
 (*           file present was the oldest when it was visited (files are     *)
 (*           visited in ascending order) and must have been unlinked, not   *)
 (*           left as a 0-byte file;                                         *)
+(*  limited  when keys are removed one at a time, each removal flushed and    *)
+(*           followed by a cycle whose time limit lets it finish exactly    *)
+(*           one file, every file that has become dead by the end has been  *)
+(*           released (one file is unvisited at each cycle: the affected);  *)
 (*  growth   a GC cycle never increases the reported storage (16 bytes of   *)
 (*           slack for a header whose first-file number gains a digit;      *)
 (*           relocated records are not on disk before the next flush);      *)
@@ -80,6 +84,9 @@ Rules(e) ==
       THEN {"emptied-oldest-primary-file-not-unlinked"} ELSE {})
   \cup (IF e.e = "idxgc" /\ Completed(e) /\ HasSt(e) /\ EmptiedOldestStays(e.st.if, prevSz.i)
       THEN {"emptied-oldest-index-file-not-unlinked"} ELSE {})
+  \cup (IF e.e = "flush" /\ "mark" \in DOMAIN e /\ e.mark = "limitedend" /\ HasSt(e)
+         /\ (\E n \in DeadPri(e.st, e.bk) : PriSize(e.st, n) > 0)
+      THEN {"dead-primary-file-not-released-by-time-limited-cycles"} ELSE {})
   \cup (IF e.e \in {"prigc", "idxgc"} /\ "ss" \in DOMAIN e /\ prevSS >= 0 /\ e.sserr = "" /\ e.ss > prevSS + 16
       THEN {"gc-increased-storage"} ELSE {})
   \cup (IF e.e = "gcfix" /\ e.panic = ""
